@@ -56,6 +56,9 @@ mod wide;
 
 mod painter; // Keep it under `pixmap` for a better order in the docs.
 
+#[cfg(tiny_skia_verif)]
+pub mod verif_hooks;
+
 pub use blend_mode::BlendMode;
 pub use color::{Color, ColorSpace, ColorU8, PremultipliedColor, PremultipliedColorU8};
 pub use color::{ALPHA_OPAQUE, ALPHA_TRANSPARENT, ALPHA_U8_OPAQUE, ALPHA_U8_TRANSPARENT};
